@@ -43,7 +43,7 @@ def top_syms(it, c):
 def rule_start(chk, rid, runs):
     chk.describe(rid, "every Forward starts at the step where the forward state currently is (n at the previous action)")
     for run_ in runs:
-        for rec in run_.interp.yields:
+        for rec in recs(run_.interp):
             if rec.kind == "Forward" and is_lin(rec.arg(0)):
                 tri(chk, rid, ycons(run_, rec), prove_eq(rec.state, rec.arg(0) - NPREV), run_, rec,
                     "n0 of the Forward minus the forward position")
@@ -305,17 +305,22 @@ def rule_units(chk, rid, runs, repo):
         c0 = conts[-1] if len(conts) > 1 else conts[0]
         capc = cap + Lin.const(seeds.get(c0, 0))
         D = Lin.sym(f"len({c0})")
-        for cr in calls:
+        ecalls = [c for c in getattr(it, "early_calls", []) if c.name == "n_advance"]
+        for cr in calls + ecalls:
             st = cr.state
+            early = cr in ecalls
             units = cr.args[1] if len(cr.args) > 1 else cr.kwargs.get("snapshots")
             cons = f"{run_.construct}#call-n_advance[{cr.ordinal}]"
             if not is_lin(units):
-                chk.decide(rid, cons, None, "units argument not linear", rel=run_.rel, node=cr.node)
+                if not early:
+                    chk.decide(rid, cons, None, "units argument not linear", rel=run_.rel, node=cr.node)
                 continue
             ls = last_set(st) or set()
             after_copy = bool(ls) and all(y.startswith("Copy[") for y in ls)
             want = capc - D + (ONE if after_copy else Lin.const(0))
             ok, why = prove_eq(st, units - want)
+            if early and ok is not False:
+                continue
             chk.decide(rid, cons, ok, f"units - (capacity[{capc}] - depth{' + 1 after Copy' if after_copy else ''}): {why}"
                        + cfgs(run_), rel=run_.rel, node=cr.node)
         # pushes stay within capacity
@@ -334,18 +339,20 @@ def rule_adv(chk, rid, runs, names=("n_advance", "mixed_step_memoization")):
     chk.describe(rid, "the planner is asked for exactly the distance to the adjoint position: steps == max_n - r - n0")
     for run_ in runs:
         it = run_.interp
-        recs = [(c.node, c.name, c.ordinal, c.args, c.state) for c in it.calls if c.name in names]
+        crecs = [(c.node, c.name, c.ordinal, c.args, c.state, False) for c in it.calls if c.name in names]
+        crecs += [(c.node, c.name, c.ordinal, c.args, c.state, True) for c in getattr(it, "early_calls", []) if c.name in names]
         # tabulated arm: schedule[steps, units]
         k = 0
         for node, base, idx, st in it.subs:
             if base == "schedule" and isinstance(idx, tuple) and len(idx) == 2:
-                recs.append((node, "schedule[]", k, list(idx), st))
+                crecs.append((node, "schedule[]", k, list(idx), st, False))
                 k += 1
-        for node, name, ordinal, args, st in recs:
+        for node, name, ordinal, args, st, early in crecs:
             cons = f"{run_.construct}#call-{name}[{ordinal}]"
             steps = args[0] if args else None
             if not is_lin(steps):
-                chk.decide(rid, cons, None, "steps argument not linear", rel=run_.rel, node=node)
+                if not early:
+                    chk.decide(rid, cons, None, "steps argument not linear", rel=run_.rel, node=node)
                 continue
             cands = [N] + [Lin.sym(top_syms(it, c)) for c in sorted(it.containers)] + \
                 [Lin.sym(f"popped({c})") for c in sorted(it.containers)]
@@ -362,5 +369,7 @@ def rule_adv(chk, rid, runs, names=("n_advance", "mixed_step_memoization")):
                 verdict, why = False, f"off by the constant {consts[0]} from max_n - r - (current step)"
             elif verdict is None:
                 why = f"residual {st.reduce(steps - (M - R - N))}"
+            if early and verdict is not False:
+                continue
             chk.decide(rid, cons, verdict, f"steps argument {st.reduce(steps)} vs max_n - r - position: {why or 'equal'}"
                        + cfgs(run_), rel=run_.rel, node=node)
